@@ -140,6 +140,18 @@ def pairing_rule(ctx, I):
                 if muts and not notes:
                     ctx.report('C13.R3', where, tag + ' raises after change', 'the list changed, then %r' % (p.ret,))
                 continue
+            if muts:
+                # between the change and its notification nothing runs that may raise: an exception there is answered as a
+                # rejection (or escapes) although the list has already changed
+                end = notes[0] if notes else len(p.st.trace)
+                for e in p.st.trace[max(muts) + 1:end]:
+                    if e[0] == 'obj-to-text':
+                        ctx.report('C13.R3', e[3] if isinstance(e[3], str) else where, tag.strip() + ': %s runs between the change and the notification' % e[2],
+                                   'an object is converted to text eagerly (format / %% / f-string) after the region list changed '
+                                   'and before the clients are told: %s can raise (for example json.dumps on a non-finite '
+                                   'coordinate), the request is then answered as rejected although the list has changed and no '
+                                   'notification is sent' % e[2])
+                        break
             if muts and (len(notes) != 1 or notes[0] < max(muts)):
                 ctx.report('C13.R3', where, tag.strip() + ': %d change(s), %d notification(s)' % (len(muts), len(notes)),
                            'a change of the region list must be followed by exactly one notification '
